@@ -32,14 +32,18 @@ fn go<T: Elem + Clone>(ops: &Rows, mon: &mut Mon) -> Rows {
             2 => {
                 let i = op[1] as usize;
                 let x = T::mk(op[2]);
+                let snap_before = (v.as_ptr() as usize, v.len(), v.capacity());
                 let r = quiet(|| v.insert(i, x));
+                if r.is_err() && (v.as_ptr() as usize, v.len(), v.capacity()) != snap_before { mon.fail(format!("op{} an out-of-range insert panicked but modified the vector: (buffer, len, capacity) {:?} -> {:?}", k, (snap_before.1, snap_before.2), (v.len(), v.capacity()))); }
                 let o = if i <= oracle.len() { oracle.insert(i, T::norm(op[2])); true } else { false };
                 row = vec![2, if r.is_ok() { 0 } else { 9 }];
                 if r.is_ok() != o { mon.fail(format!("op{} insert panic parity differs from Vec", k)); }
             }
             3 => {
                 let i = op[1] as usize;
+                let snap_before = (v.as_ptr() as usize, v.len(), v.capacity());
                 let r = quiet(|| v.remove(i));
+                if r.is_err() && (v.as_ptr() as usize, v.len(), v.capacity()) != snap_before { mon.fail(format!("op{} an out-of-range remove panicked but modified the vector: (len, capacity) {:?} -> {:?}", k, (snap_before.1, snap_before.2), (v.len(), v.capacity()))); }
                 let o = if i < oracle.len() { Some(oracle.remove(i)) } else { None };
                 row = match &r { Ok(e) => vec![3, 1, e.val()], Err(_) => vec![3, 9] };
                 if r.as_ref().ok().map(|e| e.val()) != o { mon.fail(format!("op{} remove differs from Vec", k)); }
@@ -124,6 +128,7 @@ pub fn run(params: &[i64], ops: &Rows, mon: &mut Mon) -> Rows {
         2 => go::<Tok>(ops, mon),
         3 => go::<EZ>(ops, mon),
         4 => go::<E3>(ops, mon),
+        5 => go::<A64>(ops, mon),
         _ => vec![vec![-2]],
     }
 }
